@@ -82,7 +82,7 @@ PROPS = {
     'C16': dict(coq='Properties/C16.v', drivers=[_storm('C16', 'teardown,storm,cut', 3, 40)], rule=STORM_RULE,
                 assumptions=['Life/ConnLife.v is an abstract blocking model of one connection (not run against the code): sockets, scheduler and '
                              'timers assumed; the ring interface is what C15 proves; the order of teardown actions comes from T1']),
-    'C17': dict(coq='Properties/C17.v', drivers=[_storm('C17', 'storm,cut,resume', 3, 60), _broker('C17', 60, 1500)], rule=STORM_RULE,
+    'C17': dict(coq='Properties/C17.v', drivers=[_storm('C17', 'storm,cut,resume,churn', 3, 60), _broker('C17', 60, 1500)], rule=STORM_RULE,
                 assumptions=['Ring/Writers.v models writers over the byte-granular ring; mutual exclusion of sync.Mutex assumed; wmu region and '
                              'ring roles come from T1']),
     'C18': dict(coq='Properties/C18.v', drivers=[_storm('C18', 'storm,cut,teardown,churn,inproc', 3, 25, race=True)], rule=STORM_RULE + ' Run under the Go race detector.',
@@ -97,7 +97,7 @@ PROPS = {
     'C05': dict(coq='Properties/C05.v', drivers=[_broker('C05', 120, 2500), _storm('C05', 'cut,teardown', 3, 40)], rule=BROKER_RULE, assumptions=BROKER_ASSUME),
     'C07': dict(coq='Properties/C07.v', drivers=[_broker('C07', 120, 2500), _storm('C07', 'ackeffect', 3, 30)], rule=BROKER_RULE, assumptions=BROKER_ASSUME),
     'C08': dict(coq='Properties/C08.v', drivers=[_broker('C08', 120, 2500), _storm('C08', 'churn,retrace', 2, 30)], rule=BROKER_RULE, assumptions=BROKER_ASSUME),
-    'C09': dict(coq='Properties/C09.v', drivers=[_broker('C09', 120, 2500)], rule=BROKER_RULE, assumptions=BROKER_ASSUME),
+    'C09': dict(coq='Properties/C09.v', drivers=[_broker('C09', 120, 2500), _storm('C09', 'graceful', 1, 5)], rule=BROKER_RULE + ' Plus: a slow consumer that leaves gracefully (DISCONNECT queued behind a blocked processor) / without DISCONNECT.', assumptions=BROKER_ASSUME),
     'C10': dict(coq='Properties/C10.v', drivers=[_broker('C10', 120, 2500)], rule=BROKER_RULE, assumptions=BROKER_ASSUME),
     'C11': dict(coq='Properties/C11.v', drivers=[_broker('C11', 120, 2500)], rule=BROKER_RULE, assumptions=BROKER_ASSUME),
     'C14': dict(
